@@ -20,6 +20,7 @@ import AcVerif.PreScan
 import AcVerif.StreamCost
 import AcVerif.MemUsage
 import AcVerif.NfaMemCompile
+import AcVerif.TopLevel
 import AcVerif.Compiler
 import AcVerif.DfaModel
 import AcVerif.DfaIds
@@ -79,7 +80,7 @@ def fmtExcept {β : Type} (f : β → String) : Except MatchErr β → String
   | .ok b => f b
   | .error e => e.name
 
-def specHay (m : Model) (hay : Bytes) : Bytes := if m.fold then hay.map foldByte else hay
+def drvSpecHay (m : Model) (hay : Bytes) : Bytes := if m.fold then hay.map foldByte else hay
 
 /-- answer of one op for one configuration -/
 def answer (r : Req) (c : Cfg) : String :=
@@ -98,7 +99,7 @@ def answer (r : Req) (c : Cfg) : String :=
           gate i.anch
           tryFindFwd m.A none i
         -- cross-check the model against the executable specification
-        let spec := findSpec m.kind m.P (specHay m i.hay) i.s i.e i.anch
+        let spec := findSpec m.kind m.P (drvSpecHay m i.hay) i.s i.e i.anch
         let chk := match res with
           | .ok got =>
             if i.earliest && m.kind != .std then
@@ -116,7 +117,7 @@ def answer (r : Req) (c : Cfg) : String :=
         let res : Except MatchErr (List Mat) := do
           gate i.anch
           findIter m.A none i
-        let spec := iterSpec (fun st => findSpec m.kind m.P (specHay m i.hay) st i.e i.anch) i.s i.e
+        let spec := iterSpec (fun st => findSpec m.kind m.P (drvSpecHay m i.hay) st i.e i.anch) i.s i.e
         let chk := match res with
           | .ok got => if got == spec || i.earliest then "" else
               s!" MODEL-SPEC-MISMATCH spec={fmtList (spec.map fmtMat)}"
@@ -135,7 +136,7 @@ def answer (r : Req) (c : Cfg) : String :=
             | .ok none => "-"
             | .ok (some x) => fmtMat x
             | .error e => e.name
-          let spec := overlapSpec m.P (specHay m i.hay) i.s i.e i.anch
+          let spec := overlapSpec m.P (drvSpecHay m i.hay) i.s i.e i.anch
           let got := outs.filterMap fun o => match o with | .ok (some x) => some x | _ => none
           let chk := if m.kind == .std && (A_ok outs) && got != spec.take got.length then
               s!" MODEL-SPEC-MISMATCH spec={fmtList (spec.map fmtMat)}" else ""
@@ -152,7 +153,7 @@ def answer (r : Req) (c : Cfg) : String :=
           | none => throw (if i.anch then .invalidInputAnchored else .invalidInputUnanchored)
           | some _ => pure ()
           pure (ovlIterAux m.A none i ((i.e + 2 - i.s) * (m.P.length + 1)) OState.start)
-        let spec := overlapSpec m.P (specHay m i.hay) i.s i.e i.anch
+        let spec := overlapSpec m.P (drvSpecHay m i.hay) i.s i.e i.anch
         let chk := match res with
           | .ok got => if got == spec then "" else
               s!" MODEL-SPEC-MISMATCH spec={fmtList (spec.map fmtMat)}"
@@ -398,6 +399,47 @@ def answerMeta (r : Req) (c : Cfg) : String :=
         | some (some _) => "1" | some none => "0" | none => "?"
       s!"n={A.patternsLen} min={A.minLen} max={A.maxLen} mk={mk} plens={nums (P.map List.length)} pre={pre}"
   | _, _ => "bad-request:meta"
+
+/-- `topfind` / `topiter` / `topismatch` / `topovl`: the capstone model itself (`TopLevel.lean`): the transcribed
+`AhoCorasickBuilder::build` with the real limit checks (`acBuild` / `acBuildP`), then the public method as
+`enforce_anchored_consistency` + engine on the built automaton (noncontiguous NFA through its dense rows,
+contiguous NFA words, DFA table) – what `Top_capstone` / `TopB_capstone` are about – for top-level
+configurations; the harness answers with the corresponding real `AhoCorasick` method -/
+def answerTop (r : Req) (c : Cfg) : String :=
+  match r.list? "pats", MatchKind.parse (r.getD "mk" "std"), (r.bytes? "hay").bind (mkInput r) with
+  | some P, some k, some i =>
+    if !c.isTop then "n/a"
+    else
+      let kind : Option AcKind := match c.kind with
+        | "tnc" => some .noncontiguous | "tc" => some .contiguous | "tdfa" => some .dfa | _ => none
+      let cfgB : BuildCfg := { matchKind := k, fold := r.flag "fold", startKind := c.sk, kind := kind,
+                               nncDenseDepth := c.dd.getD 3, contigDenseDepth := c.dd.getD 2, byteClasses := c.bc }
+      let built : Except BuildErr Searcher :=
+        if c.pf then
+          match r.bytes? "freq" with
+          | some fb =>
+            acBuildP {} (constsOf r) cfgB (fun b => (fb.getD b.toNat 0).toNat)
+              (r.getD "avx2" "1" == "1") (r.getD "ssse3" "1" == "1") P
+          | none => acBuild {} cfgB none P
+        else acBuild {} cfgB none P
+      match built with
+      | .error _ => "build-error"
+      | .ok s =>
+        match r.op with
+        | "topfind" => fmtExcept fmtOpt (topFind s i)
+        | "topismatch" =>
+          -- the infallible `is_match` panics (`expect`) where `try_find` returns an error
+          match topIsMatch s i with
+          | .ok b => toString b
+          | .error _ => "panic"
+        | "topiter" => fmtExcept (fun l => fmtList (l.map fmtMat)) (topFindIter s i)
+        | "topovl" =>
+          fmtList ((topOverlapping s i (r.natD "n" 1)).map fun o => match o with
+            | .ok none => "-"
+            | .ok (some x) => fmtMat x
+            | .error e => e.name)
+        | _ => "bad-request:top"
+  | _, _, _ => "bad-request:top"
 
 /-- `rawnnfa`: the raw vectors of the noncontiguous NFA just before `shuffle` (`MemNfa.compile`), in the format of the
 `verif::take_preshuffle` hook: `states` as `sparse:matches:fail:depth`, `sparse` as `byte:next:link`, `matches` as
@@ -932,6 +974,7 @@ def respond (lineNo : Nat) (line : String) : List String :=
     | "meta" => (cfgsOf r).map fun c => s!"{lineNo} {c.name} {answerMeta r c}"
     | "memusage" => (cfgsOf r).map fun c => s!"{lineNo} {c.name} {answerMemUsage r c}"
     | "rawnnfa" => [s!"{lineNo} - {answerRawNnfa r}"]
+    | "topfind" | "topiter" | "topismatch" | "topovl" => (cfgsOf r).map fun c => s!"{lineNo} {c.name} {answerTop r c}"
     | "threads" => (cfgsOf r).map fun c =>
         let hays := (r.getD "hays" "_").splitOn "|"
         let finds := hays.map fun h =>
